@@ -7,7 +7,7 @@ RULE = 'histories of retained / non-retained / empty publishes over a small topi
 
 
 def scripts_for(seed, tier):
-    sc = F.retained(seed, tier)
+    sc = B.multi(F.retained, seed, tier, 4)
     return sc
 
 
